@@ -161,44 +161,62 @@ structure Out where
   dkey : String
   dsa : Bool
 
+/-- the COSE_Sign1 array of the document's issuerAuth -/
+def issuerAuthOf (doc : Cbor) : Option (List Cbor) :=
+  ((fget doc "issuerSigned").bind fun i => fget i "issuerAuth").bind coseArr
+
+/-- its attached payload (MobileSecurityObjectBytes) -/
+def issuerPayload (doc : Cbor) : Option Bytes :=
+  match issuerAuthOf doc with | some [_, _, .bytes p, _] => some p | _ => none
+
+/-- the MSO the document carries: decoded from the payload the issuer signature covers -/
+def msoOfDoc (doc : Cbor) : Option Cbor := (issuerPayload doc).bind msoOf
+
+/-- the holder's key as the MSO names it: its kind, and its affine coordinates if it is a P-256 point on the curve -/
+def deviceKeyOf (mso : Option Cbor) : String × Option (Nat × Nat) :=
+  let dk := (mso.bind fun m => fget m "deviceKeyInfo").bind fun k => fget k "deviceKey"
+  match dk with
+  | some (.map m) =>
+    (match mget (.map m) (.uint 1), mget (.map m) (.nint 1), mget (.map m) (.nint 2) with
+     | some (.uint 2), some (.bytes x), some (.bytes y) =>
+       if x.length != 32 || y.length != 32 then ("badlen", none)
+       else if P256.onCurve (fromBe x) (fromBe y) then ("p256", some (fromBe x, fromBe y)) else ("offcurve", none)
+     | some (.uint 2), _, some (.simple 20) => ("compressed", none)
+     | some (.uint 2), _, some (.simple 21) => ("compressed", none)
+     | _, _, _ => ("okp", none))
+  | _ => ("okp", none)
+
+/-- DeviceAuthenticationBytes as the reader rebuilds them: the session transcript, the document's docType and
+its DeviceNameSpacesBytes, each as the CBOR item received -/
+def deviceAuthBytes (transcript docType dns : Cbor) : Bytes :=
+  Cbor.enc (.tag 24 (.bytes (Cbor.enc (.array [tx "DeviceAuthentication", transcript, docType, dns]))))
+
+/-- the device signature of the document verifies under `dvk` over Sig_structure(protected, DeviceAuthenticationBytes) -/
+def deviceSigAccepts (doc transcript : Cbor) (dvk : Option (Nat × Nat)) : Bool :=
+  let ds := (((fget doc "deviceSigned").bind fun s => fget s "deviceAuth").bind fun a => fget a "deviceSignature").bind coseArr
+  match ds, dvk, fget doc "docType", (fget doc "deviceSigned").bind (fun s => fget s "nameSpaces") with
+  | some [.bytes dprot, _, _, .bytes dsig], some (x, y), some docType, some dns =>
+    ecdsaVerify x y (sigStructure dprot (deviceAuthBytes transcript docType dns)) dsig
+  | _, _, _, _ => false
+
 /-- `ikey`: affine coordinates of the first x5chain certificate's key, if it is a P-256 key -/
 def compute (resp transcript : Cbor) (ikey : Option (Nat × Nat)) : Out :=
   match firstMdl resp with
   | none => ⟨false, false, false, false, "okp", false⟩
   | some doc =>
-    let ia := ((fget doc "issuerSigned").bind fun i => fget i "issuerAuth").bind coseArr
+    let ia := issuerAuthOf doc
     let prot := match ia with | some (.bytes p :: _) => p | _ => []
-    let payload : Option Bytes := match ia with | some [_, _, .bytes p, _] => some p | _ => none
     let isig := match ia with | some [_, _, _, .bytes s] => s | _ => []
     let isa := match ikey with
-      | some (x, y) => ecdsaVerify x y (sigStructure prot (payload.getD [])) isig
+      | some (x, y) => ecdsaVerify x y (sigStructure prot ((issuerPayload doc).getD [])) isig
       | none => false
-    let mso := payload.bind msoOf
+    let mso := msoOfDoc doc
     let dig := match mso with | some m => digestsMatch doc m | none => false
     let dt := match mso.bind (fun m => fget m "docType"), fget doc "docType" with
       | some a, some b => a == b
       | _, _ => false
-    -- device key from the MSO
-    let dk := (mso.bind fun m => fget m "deviceKeyInfo").bind fun k => fget k "deviceKey"
-    let (dkey, dvk) : String × Option (Nat × Nat) := match dk with
-      | some (.map m) =>
-        (match mget (.map m) (.uint 1), mget (.map m) (.nint 1), mget (.map m) (.nint 2) with
-         | some (.uint 2), some (.bytes x), some (.bytes y) =>
-           if x.length != 32 || y.length != 32 then ("badlen", none)
-           else if P256.onCurve (fromBe x) (fromBe y) then ("p256", some (fromBe x, fromBe y)) else ("offcurve", none)
-         | some (.uint 2), _, some (.simple 20) => ("compressed", none)
-         | some (.uint 2), _, some (.simple 21) => ("compressed", none)
-         | _, _, _ => ("okp", none))
-      | _ => ("okp", none)
-    -- device signature over DeviceAuthenticationBytes
-    let ds := (((fget doc "deviceSigned").bind fun s => fget s "deviceAuth").bind fun a => fget a "deviceSignature").bind coseArr
-    let dsa := match ds, dvk, fget doc "docType", (fget doc "deviceSigned").bind (fun s => fget s "nameSpaces") with
-      | some [.bytes dprot, _, _, .bytes dsig], some (x, y), some docType, some dns =>
-        let da := Cbor.enc (.array [tx "DeviceAuthentication", transcript, docType, dns])
-        let daBytes := Cbor.enc (.tag 24 (.bytes da))
-        ecdsaVerify x y (sigStructure dprot daBytes) dsig
-      | _, _, _, _ => false
-    ⟨isa, mso.isSome, dig, dt, dkey, dsa⟩
+    let dk := deviceKeyOf mso
+    ⟨isa, mso.isSome, dig, dt, dk.1, deviceSigAccepts doc transcript dk.2⟩
 
 /-! ### reader authentication (C11): the same for one document request -/
 
